@@ -41,6 +41,13 @@ RULE = ("a case = (type hint, input, channel). Type hints: every hint of the gra
         "containing every ordered pair of == items of different kinds (1/True/1.0, 0/False/0.0, 2/2.0), alone and with company, "
         "plus conforming and random item sequences; every item stand-alone. "
         "Group cases: a parser with nested keys g.<field>, parse_object({'g': value}) for scalar / list / mapping values. "
+        "Annotated cases: hints of the generators above with ONE sub-hint (any depth, the root included) wrapped in "
+        "Annotated[., 'meta'] (no validator), values as for the plain hint; model and spec see the plain hint. "
+        "Nested-option cases: parse_args(['--k.<key>=<text>']) on a key of type Dict[str|int, T] for 19 item types (scalars, "
+        "Optional, Unions with str in both orders, Literal, Enum, Any, List, Dict, Tuple, Set) x str / int-like / non-int keys x 24 "
+        "texts (Model/C02Ext.v parse_key_nested). TypedDict classes with NotRequired fields, total=False classes with Required "
+        "fields (missing optional / required keys, alone and in Unions). Restricted number members: the declared comparisons "
+        "(> 0, >= 0, 0 <= . <= 1) are evaluated in the harness on int inputs, decimal texts and on every accepted result. "
         "distinct = distinct (hint, input, channel); non-trivial = hint is not a bare leaf type or the input is text")
 TRUSTED = [
     "Coq 8.16.1 kernel + vm_compute",
@@ -57,10 +64,16 @@ ASSUMPTIONS = [
     "to conform to the hint",
     "registered/restricted members are opaque: what adapt_typehints(value, member) returns or that it raises is observed, and any "
     "exception counts as a member failure (as `except Exception` in the trial loop does); they occur only as direct Union members",
-    "TypedDict members are total, with fields of the modelled grammar; their behaviour is observed, their conformance is judged "
-    "from the declared fields; the declared predicate of the flagged restricted string types is computed with Python's re",
+    "TypedDict members have fields of the modelled grammar, each required or NotRequired; their behaviour is observed, their "
+    "conformance is judged from the declared fields (declared keys only, required keys present); the declared predicate of the "
+    "flagged restricted string types is computed with Python's re, that of the restricted number types by the harness's own "
+    "arithmetic (ints and plain decimal texts as inputs, the decimal repr of accepted results)",
+    "Annotated[T, metadata] without a validator means T (model and spec are given T); pydantic-style validators, Type[...], "
+    "Callable, dataclass and subclass hints are outside the modelled space",
+    "the nested option --k.<key>=<text> is modelled for Dict-typed keys with no previous value (one option per parse)",
     "a command-line / config text counts as right-shaped when YAML reads it as a non-str value of the right shape (blank text and "
-    "'-' excepted: the parser keeps them as text); acceptance is a function of (hint, value): histories are not part of the model",
+    "'-' excepted: the parser keeps them as text) and load_basic reads it as YAML does (Spec/C02Defs.v text_shaped, the premise "
+    "of C02_text_of_right_shape_accepted); acceptance is a function of (hint, value): histories are not part of the model",
     "an int beyond the float range is not given to a modelled `float` member (Model/Ty.v's float(int) has no OverflowError branch)",
     "floats are compared as decimals (<= 15 significant digits); a resulting set is compared in the canonical order ints, strs, "
     "False, True, then at most one other item",
@@ -534,6 +547,10 @@ PRED = {"LowerCI": ["^[a-z]{2,}$", ["IGNORECASE"]], "DotAll": ["^a.b$", ["DOTALL
         "MultiL": ["^ab$", ["MULTILINE"]], "Plain": ["^[a-z]+$", []]}
 TDS = [["td", "Measure", [["x", ["float"]], ["y", ["int"]]]], ["td", "Label", [["x", ["int"]], ["y", ["str"]]]],
        ["td", "Opt", [["x", ["union", [["int"], ["none"]]]], ["y", ["list", ["int"]]]]], ["td", "Flag", [["x", ["bool"]], ["y", ["str"]]]]]
+# fields declared NotRequired[...] (m[3]); "nontotal": total=False with the other fields declared Required[...]
+TDS_OPT = [["td", "Part", [["x", ["int"]], ["y", ["str"]]], ["y"]],
+           ["td", "Loose", [["x", ["int"]], ["y", ["list", ["int"]]]], ["y"], "nontotal"],
+           ["td", "AllOpt", [["x", ["float"]], ["y", ["int"]]], ["x", "y"]]]
 TD_VALUES = [["dict", [[["str", "x"], ["int", "1"]], [["str", "y"], ["str", "s"]]]],
              ["dict", [[["str", "x"], ["int", "1"]], [["str", "y"], ["int", "2"]]]],
              ["dict", [[["str", "x"], ["float", "1.5"]], [["str", "y"], ["int", "2"]]]],
@@ -548,6 +565,26 @@ TD_VALUES = [["dict", [[["str", "x"], ["int", "1"]], [["str", "y"], ["str", "s"]
 PRED_VALUES = [["str", "ABC"], ["str", "abc"], ["str", "Ab"], ["str", "a"], ["str", "a\nb"], ["str", "axb"], ["str", "caf\u00e9"],
                ["str", "cafe_1"], ["str", "ab"], ["str", "ab\ncd"], ["str", "x\nab"], ["str", ""], ["str", "null"], ["int", "1"],
                ["str", "AB\n"], ["str", "a b"]]
+
+
+# the declared comparisons of the restricted number types (jsonargparse.typing): base type, [(op, reference)], all must hold
+NUMPRED = {"PositiveInt": ("int", [(">", 0)]), "NonNegativeInt": ("int", [(">=", 0)]), "PositiveFloat": ("float", [(">", 0)]),
+           "ClosedUnitInterval": ("float", [(">=", 0), ("<=", 1)])}
+
+
+def num_pred(name, text):
+    """does the number written as `text` satisfy the DECLARED restriction of the type (computed here, not by the tree)"""
+    import operator
+    import re
+    base, restr = NUMPRED[name]
+    ops = {">": operator.gt, ">=": operator.ge, "<": operator.lt, "<=": operator.le}
+    try:
+        x = int(text) if re.match(r"^-?\d+$", text) else (float(text) if base == "float" else None)
+    except (ValueError, OverflowError):
+        return False
+    if x is None or x != x:
+        return False
+    return all(ops[o](x, r) for o, r in restr)
 
 
 def pred_matches(name, text):
@@ -660,6 +697,14 @@ def x_cases(rng, tier):
                     add(ms, None, v)
         for v in TD_VALUES:
             add([td], None, v)
+    # (1d) TypedDict classes with NotRequired / Required fields: alone, beside a total class, beside plain members
+    for td in TDS_OPT:
+        for v in TD_VALUES:
+            add([td], None, v)
+        for other in (TDS[0], TDS[1], ["int"], ["none"], ["dict", "str", ["int"]]):
+            for ms in ([td, other], [other, td]):
+                for v in (TD_VALUES if not quick else rng.sample(TD_VALUES, 6)):
+                    add(ms, None, v)
     # (2) declared defaults: every conforming scalar default x every scalar value, typed objects and text
     hints = [["int"], ["float"], ["bool"], ["str"], ["union", [["int"], ["none"]]], ["union", [["int"], ["str"]]],
              ["union", [["bool"], ["float"]]], ["lit", [["int", "1"], ["int", "2"]]], ["union", [["str"], ["none"]]]]
@@ -818,6 +863,110 @@ def kind_cases(rng, tier):
     return cases
 
 
+def has_ann(t):
+    if not isinstance(t, list):
+        return False
+    return (t and t[0] == "ann") or any(has_ann(x) for x in t[1:] if isinstance(x, list))
+
+
+def strip_ann(t):
+    if not isinstance(t, list):
+        return t
+    if t and t[0] == "ann":
+        return strip_ann(t[1])
+    return [strip_ann(x) if isinstance(x, list) and x and not (t[0] in ("lit", "enum")) else x for x in t]
+
+
+def type_positions(t, pre=()):
+    """paths to the sub-hints of t (the root included)"""
+    yield pre
+    k = t[0]
+    if k in ("union", "tuple"):
+        for i, x in enumerate(t[1]):
+            yield from type_positions(x, pre + ((1, i),))
+    elif k in ("list", "tuplevar", "set"):
+        yield from type_positions(t[1], pre + ((1, None),))
+    elif k == "dict":
+        yield from type_positions(t[2], pre + ((2, None),))
+
+
+def wrap_at(t, path):
+    if not path:
+        return ["ann", t]
+    (slot, i), rest = path[0], path[1:]
+    t2 = list(t)
+    if i is None:
+        t2[slot] = wrap_at(t[slot], rest)
+    else:
+        ms = list(t[slot])
+        ms[i] = wrap_at(ms[i], rest)
+        t2[slot] = ms
+    return t2
+
+
+def ann_cases(rng, tier):
+    """Annotated[T, 'meta'] (metadata that is no validator) means T: hints with ONE sub-hint (any depth, the root included)
+    wrapped, values as for the plain hint; model and spec see the plain hint. A bare NoneType is not wrapped (Annotated[None, ..]
+    is not a hint add_argument understands beside others)."""
+    quick = tier == "quick"
+    sys_t = systematic_types()
+    types = (rng.sample(sys_t, 60 if quick else 300) + depth2_types(rng, 30 if quick else 200)
+             + [rand_ty(rng, rng.choice([2, 3])) for _ in range(30 if quick else 200)])
+    cases, seen = [], set()
+    for t in types:
+        pos = [p for p in type_positions(t)]
+        for _ in range(3):
+            p = rng.choice(pos)
+            sub = t
+            for slot, i in p:
+                sub = sub[slot] if i is None else sub[slot][i]
+            if sub == ["none"]:
+                continue
+            ta = wrap_at(t, p)
+            r = rng.random()
+            v = gen_val(rng, t)
+            if r < 0.3:
+                pass
+            elif r < 0.5:
+                v = corrupt(rng, v)
+            elif r < 0.8:
+                w = v if r < 0.65 else corrupt(rng, v)
+                s = None if w is None else to_text(rng, w)
+                v = None if s is None else ["str", s]
+            else:
+                v = ["str", rng.choice(STRS)]
+            if v is None or not valid_val(v):
+                continue
+            key = json.dumps([ta, v])
+            if key in seen:
+                continue
+            seen.add(key)
+            c = make_case(rng, t, v, 0)
+            c["ty"], c["perms"], c["parts"] = ta, [], None
+            cases.append(c)
+    return cases
+
+
+def nested_cases(rng, tier):
+    """the nested command-line channel: --k.<key>=<text> on a key of type Dict[str|int, T]"""
+    quick = tier == "quick"
+    items = [["int"], ["str"], ["float"], ["bool"], mk_union([["int"], ["none"]]), mk_union([["str"], ["int"]]), mk_union([["int"], ["str"]]),
+             ["list", ["int"]], ["lit", [["int", "1"], ["int", "2"]]], ["lit", [["str", "null"], ["int", "0"], ["bool", True]]],
+             ["enum", "Color", ENUMS["Color"]], ["any"], ["dict", "str", ["int"]], ["tuple", [["int"], ["str"]]], mk_union([["list", ["int"]], ["str"]]),
+             mk_union([["bool"], ["float"]]), ["tuplevar", ["int"]], ["set", ["int"]], mk_union([["none"], ["enum", "Color", ENUMS["Color"]]])]
+    texts = ["1", "a", "null", "true", "1.5", "[1, 2]", "[1, a]", "{a: 1}", "", " ", "-", "RED", "0", "2", "x y", "[]", "1e3", "~", "[1]",
+             '"q"', "0x_", "{a: x}", "- 1", "No"]
+    skeys = ["a", "b1", "1", "null", "a-b", "A"]
+    ikeys = ["1", "0", "-5", "a", "1.5", "07", "true", "12"]
+    cases = []
+    for t in items:
+        for ik in (False, True):
+            for key in ((skeys if not ik else ikeys) if not quick else rng.sample(skeys if not ik else ikeys, 3)):
+                for s in (rng.sample(texts, 10) if not quick else rng.sample(texts, 3)):
+                    cases.append({"kind": "nested", "ik": ik, "ty": t, "key": key, "val": ["str", s]})
+    return cases
+
+
 def generate(rng, tier):
     quick = tier == "quick"
     cap = 6 if quick else 30
@@ -859,7 +1008,7 @@ def generate(rng, tier):
             else:
                 add(t, ["str", rng.choice(STRS)])
     return (witness_cases(rng) + group_cases(rng, tier) + kind_cases(rng, tier) + history_cases(rng, tier) + x_cases(rng, tier) + set_cases(rng, tier)
-            + cases)
+            + cases + ann_cases(rng, tier) + nested_cases(rng, tier))
 
 
 # -----------------------------------------------------------------------------------------------------------------
@@ -914,6 +1063,10 @@ def observe(cases):
             if c["kind"] == "group":
                 groups.append({"fields": c["fields"], "val": c["val"], "style": c["style"]})
                 continue
+            if c["kind"] == "nested":
+                qs.append({"ty": ["dict", "int" if c["ik"] else "str", c["ty"]], "val": c["val"], "ch": "nested", "key": c["key"]})
+                strings_of(c["val"], strs)
+                continue
             qs += case_queries(c)
             strings_of(c["val"], strs)
         payloads.append({"queries": qs, "strings": sorted(strs), "groups": groups, "enums": ENUMS, "xqueries": xqs, "pred": PRED})
@@ -949,6 +1102,13 @@ def observe(cases):
                 if res["groups"][g][0] == "skip":
                     out[i] = {"skip": res["groups"][g][1], "obs": ["skip"]}
                 g += 1
+                continue
+            if c["kind"] == "nested":
+                o = res["obs"][k]
+                k += 1
+                strs = set()
+                strings_of(c["val"], strs)
+                out[i] = {"skip": o[1], "obs": ["skip"]} if o[0] == "skip" else {"obs": o, "oracle": oracle_closure(strs, res["oracle"])}
                 continue
             nq = 1 + len(c["perms"]) + len(c["parts"] or [])
             obs = res["obs"][k:k + nq]
@@ -1030,6 +1190,8 @@ def g_lit(v):
 
 def g_ty(t):
     k = t[0]
+    if k == "ann":          # Annotated[T, 'meta']: the model (and the spec) see T
+        return g_ty(t[1])
     if k in ("str", "int", "float", "bool", "none", "any"):
         return {"str": "TStr", "int": "TInt", "float": "TFloat", "bool": "TBool", "none": "TNone", "any": "TAny"}[k]
     if k == "lit":
@@ -1064,15 +1226,27 @@ def g_obs(o):
 def pred_table(case, obs):
     """the declared predicate of every flagged restricted-string member on every text of the case (input and result)"""
     names = [m[1] for m in case["ms"] if m[0] == "opq" and m[1] in PRED]
-    texts = set()
+    nums = [m[1] for m in case["ms"] if m[0] == "opq" and m[1] in NUMPRED]
+    texts, ntexts = set(), set()
     if case["val"][0] == "str":
         texts.add(case["val"][1])
+        import re
+        if re.match(r"^-?\d+(\.\d+)?$", case["val"][1]) and len(case["val"][1]) < 300:   # a plain decimal literal
+            ntexts.add(case["val"][1])
+    if case["val"][0] == "int" and len(case["val"][1]) < 300:
+        ntexts.add(case["val"][1])
     o = obs["obs"]
     if o[0] == "ok" and o[1][0] == "opaque":
         texts.add(o[1][2])
+        ntexts.add(o[1][2])
     if o[0] == "ok" and o[1][0] == "str":
         texts.add(o[1][1])
-    return [[n, t, pred_matches(n, t)] for n in names for t in sorted(texts)]
+    return ([[n, t, pred_matches(n, t)] for n in names for t in sorted(texts)]
+            + [[n, t, num_pred(n, t)] for n in nums for t in sorted(ntexts)])
+
+
+def tdopt_table(case):
+    return [[m[1], f] for m in case["ms"] if m[0] == "td" and len(m) > 3 for f in m[3]]
 
 
 def g_member(m):
@@ -1094,10 +1268,15 @@ def term(case, obs):
         perms = g_list([g_pair(g_list(["%d%%nat" % i for i in pm], "nat"), g_bool(a)) for pm, a in zip(case["perms"], obs["perms"])],
                        "(list nat * bool)")
         pr = g_list(["(%s, %s, %s)" % (g_str(n), g_str(t), g_bool(b)) for n, t, b in pred_table(case, obs)], "(str * str * bool)")
-        return ("XCase {| x_ms := %s; x_dflt := %s; x_in := %s; x_oracle := %s; x_opq := %s; x_pred := %s; x_obs := %s; x_parts := %s; "
-                "x_perms := %s |}" % (g_list([g_member(m) for m in case["ms"]], "member"),
-                                      g_opt(None if case["dflt"] is None else "(%s)" % g_val(case["dflt"])), g_val(case["val"]), orc, tbl, pr,
+        tdo = g_list([g_pair(g_str(n), g_str(f)) for n, f in tdopt_table(case)], "(str * str)")
+        return ("XCase {| x_ms := %s; x_dflt := %s; x_in := %s; x_oracle := %s; x_opq := %s; x_pred := %s; x_tdopt := %s; x_obs := %s; "
+                "x_parts := %s; x_perms := %s |}" % (g_list([g_member(m) for m in case["ms"]], "member"),
+                                      g_opt(None if case["dflt"] is None else "(%s)" % g_val(case["dflt"])), g_val(case["val"]), orc, tbl, pr, tdo,
                                       g_obs(obs["obs"]), g_list([g_bool(b) for b in obs["parts"]], "bool"), perms))
+    if case["kind"] == "nested":
+        orc = g_list([g_pair(g_str(s), g_lres(o)) for s, o in obs["oracle"].items()], "(str * lres)")
+        return "NestedCase %s (%s) %s %s %s (%s)" % (g_bool(case["ik"]), g_ty(case["ty"]), g_str(case["key"]), g_str(case["val"][1]), orc,
+                                                     g_obs(obs["obs"]))
     if case["kind"] == "group":
         fs = g_list([g_pair(g_str(n), "(%s)" % g_ty(t)) for n, t in case["fields"]], "(str * ty)")
         return "GroupCase %s (%s) (%s)" % (fs, g_val(case["val"]), g_obs(obs["obs"]))
@@ -1122,6 +1301,8 @@ def nontrivial_key(case, obs):
         return json.dumps(["x", case["ms"], case["dflt"], case["val"], case["ch"]])
     if case["kind"] == "group":
         return json.dumps(["group", case["fields"], case["val"], case["style"]])
+    if case["kind"] == "nested":
+        return json.dumps(["nested", case["ik"], case["ty"], case["key"], case["val"]])
     if case["ty"][0] in ("str", "int", "float", "bool", "none") and case["val"][0] == case["ty"][0]:
         return None
     return json.dumps([case["ty"], case["val"], case["ch"], case.get("before") or []])
@@ -1129,6 +1310,8 @@ def nontrivial_key(case, obs):
 
 def ty_depth(t):
     k = t[0]
+    if k == "ann":
+        return ty_depth(t[1])
     if k in ("union", "tuple"):
         return 1 + max([ty_depth(x) for x in t[1]] + [0])
     if k in ("list", "tuplevar", "set"):
@@ -1149,6 +1332,11 @@ def category(case, obs):
                                       "text" if case["val"][0] == "str" else "object", obs["obs"][0])
     if case["kind"] == "group":
         return "group key/%s/%s" % (case["val"][0], obs["obs"][0])
+    if case["kind"] == "nested":
+        return "nested option --k.<key>=<text>/Dict[%s, %s depth %d]/%s" % ("int" if case["ik"] else "str", case["ty"][0], ty_depth(case["ty"]),
+                                                                         obs["obs"][0])
+    if has_ann(case["ty"]):
+        return "Annotated[...] inside the hint/%s/%s input/%s" % (case["ty"][0], "text" if case["val"][0] == "str" else "object", obs["obs"][0])
     if case.get("before"):
         return "after parses under a confusable hint/%s/%s" % (case["ty"][0], obs["obs"][0])
     return "%s depth %d/%s input/%s" % (case["ty"][0], ty_depth(case["ty"]),
@@ -1157,6 +1345,8 @@ def category(case, obs):
 
 def show_ty(t):
     k = t[0]
+    if k == "ann":
+        return "Annotated[%s, 'meta']" % show_ty(t[1])
     if k in ("str", "int", "float", "bool", "any"):
         return {"any": "Any"}.get(k, k)
     if k == "none":
@@ -1207,7 +1397,10 @@ def show_obs(o):
 
 def show_member(m):
     if m[0] == "td":
-        return "%s(TypedDict: %s)" % (m[1], ", ".join("%s: %s" % (f, show_ty(t)) for f, t in m[2]))
+        opt = m[3] if len(m) > 3 else []
+        return "%s(TypedDict%s: %s)" % (m[1], ", total=False" if len(m) > 4 else "", ", ".join(
+            "%s: %s" % (f, ("NotRequired[%s]" if f in opt and len(m) <= 4 else "Required[%s]" if f not in opt and len(m) > 4 else "%s") % show_ty(t))
+            for f, t in m[2]))
     if m[0] == "opq" and m[1] in PRED:
         return "%s(restricted_string_type(re.compile(%r, %s)))" % (m[1], PRED[m[1]][0], "|".join(PRED[m[1]][1]) or "0")
     return m[1] if m[0] == "opq" else show_ty(m)
@@ -1234,6 +1427,9 @@ def describe(case, obs):
                                                                       ", ".join("%s: %s" % (n, show_ty(t)) for n, t in case["fields"]),
                                                                       " inside add_argument_group" if case["style"] == "group" else ""),
                 "call": "parse_object({'g': %s})" % show_val(case["val"]), "observed": show_obs(obs["obs"])}
+    if case["kind"] == "nested":
+        return {"type_hint": "Dict[%s, %s]" % ("int" if case["ik"] else "str", show_ty(case["ty"])),
+                "call": "parse_args([%r])" % ("--k." + case["key"] + "=" + case["val"][1]), "observed": show_obs(obs["obs"])}
     call = ("parse_args(['--k=' + %r])" % case["val"][1]) if case["ch"] == "argv" else "parse_object({'k': %s})" % show_val(case["val"])
     d = {"type_hint": show_ty(case["ty"]), "call": call, "observed": show_obs(obs["obs"])}
     if case.get("before"):
@@ -1248,7 +1444,10 @@ def describe(case, obs):
 
 
 def shrink(case):
-    if case["kind"] == "group":
+    if case["kind"] in ("group", "nested"):
+        return
+    if case["kind"] == "ty" and has_ann(case["ty"]):      # is the Annotated wrapper needed at all?
+        yield dict(case, ty=strip_ann(case["ty"]))
         return
     if case["kind"] == "x":
         ms = case["ms"]
@@ -1312,7 +1511,10 @@ META = {
                   "C02_recheck_passes_repaired, C02_union_order_independent_repaired (all inputs), C02_union_iff_some_member_repaired, "
                   "C02_list/tuple/dict/set_iff_*_repaired (Python objects). For the model of the pinned tree on every input inside the "
                   "executable guard (no recorded defect changes the outcome for that input): C02_sound, C02_never_rejects_right_shape, "
-                  "C02_union_order_independent_parse, C02_union_iff_some_member_parse, C02_list_iff_items_parse, C02_set_iff_items_parse. For the pinned tree "
+                  "C02_union_order_independent_parse, C02_union_iff_some_member_parse, C02_list_iff_items_parse, C02_set_iff_items_parse, "
+                  "C02_text_of_right_shape_accepted (command-line / config TEXT that the loader reads as a non-str value of the hint's "
+                  "shape is accepted; repaired model: C02_text_of_right_shape_accepted_repaired, every hint, text and loader — the judge's "
+                  "text_right_shape is the premise text_shaped of these theorems). For the pinned tree "
                   "unconditionally, at the level of adapt_typehints / the first pass: C02_list/tuplevar/tuple/dict_iff_*, "
                   "C02_union_iff_some_member, C02_union_order_independent, C02_first_pass_union_order_independent. Eight `_refuted` "
                   "witnesses show where the pinned tree breaks the full statements. Correspondence: real parser vs model on generated "
@@ -1320,13 +1522,18 @@ META = {
                   "never-reject-a-right-shaped-value and compositionality of the OBSERVED behaviour are judged inside Coq "
                   "against Spec/Conforms.v.",
     "level_note": "Only exercised by the correspondence, not proved: item = stand-alone acceptance for str items; Dict[int,.] "
-                  "compositionality; the group-key model (Spec/C02Group.v: witness and per-case judgement only). The guard is semantic "
-                  "(pinned model = repaired model on this input), evaluated per case by the judge. Restricted types are covered by C20, "
-                  "paths by C19; Callable, Type[...], TypedDict, Annotated, dataclass/subclass hints are not modelled. Trusted: Coq "
+                  "compositionality; the group-key model (Spec/C02Group.v: witness and per-case judgement only); the nested option "
+                  "--k.<key>=<text> (Model/C02Ext.v parse_key_nested: model agreement, soundness and text right shape per case); "
+                  "Annotated[T, meta] = T (tie only). The guard is semantic "
+                  "(pinned model = repaired model on this input), evaluated per case by the judge. Restricted types and TypedDict "
+                  "classes are OBSERVED Union members judged against their declared predicate / fields (restricted types in depth: C20), "
+                  "paths by C19; Callable, Type[...], pydantic validators, dataclass/subclass hints are not modelled; an int beyond "
+                  "the float range given to float (OverflowError -> ValueError) is outside the model. Trusted: Coq "
                   "kernel/VM, the hand-written models (tied per case), PyYAML on structured text (observed oracle), the runner's "
                   "canonicalisation. No axioms.",
     "technique": "Rocq proofs by structural induction over the nested type grammar (custom induction principles for ty and val), "
                  "invariants of the Union trial loop and of stable sorting, soundness + completeness => the re-check is redundant; "
+                 "text completeness by a second induction over the hint for texts the parser keeps as text (leaf / Literal-kinds / Any re-load); "
                  "executable semantic guard; correspondence and spec verdicts by vm_compute",
 }
 
